@@ -15,7 +15,7 @@ Definition ex_env (op : outpoint) : look :=
 Definition ex_tx : tx := mkTx [mkIn (7, 0) 0 []; mkIn (7, 1) 0 []] [[1; 2]] [9].
 Definition ex_engine := engine_template Toy.pk Toy.verify Toy.sighash Toy.sha256 Toy.pk_of_redeem.
 Definition ex_sign_raw :=
-  sign_raw Toy.kdf Toy.digest Toy.shash Toy.open_box Toy.sk Toy.branch_ok Toy.derive_sk Toy.sign true ex_cfg
+  sign_raw Toy.kdf Toy.digest Toy.shash Toy.open_box Toy.sk Toy.branch_ok Toy.derive_sk Toy.sign true true true ex_cfg
            Toy.pk Toy.sighash Toy.redeem Toy.pub_at 1000 ex_env true 10 ex_engine.
 
 Lemma ex_env_ok : forall op u a, ex_env op = LOut u -> u_addr u = Some a ->
@@ -34,7 +34,7 @@ Lemma ex_laws :
   sign_laws Toy.sk Toy.sign ex_cfg Toy.sk_of Toy.pk Toy.verify Toy.pub_of Toy.sighash Toy.sha256 Toy.redeem
             Toy.pk_of_redeem Toy.pub_at ex_env ex_engine.
 Proof.
-  split; [apply Toy.toy_unlock_laws|].
+  split; [apply Toy.toy_unlock_laws; reflexivity|].
   apply (Toy.toy_sign_laws ex_right [1; 2; 3] [4; 5; 6] [(0, 0); (0, 1)] ex_env ex_env_ok).
 Qed.
 
@@ -46,7 +46,7 @@ Qed.
 
 Lemma single_unguarded_refuted_witness :
   owned 1000 ex_env true 10 ex_tx /\ parse_flag s_single = Some FSingle /\
-  exists t', ex_sign_raw init_state ex_right s_single ex_tx = (SErr SEngine, init_state, t', None) /\
+  exists t', ex_sign_raw (init_state ex_cfg) ex_right s_single ex_tx = (SErr SEngine, (init_state ex_cfg), t', None) /\
              wit_shape t' = [2%nat; 0%nat].
 Proof.
   split; [exact ex_owned|]. split; [reflexivity|]. eexists. split; vm_compute; reflexivity.
